@@ -11,6 +11,7 @@ import vlib
 PROP_V = 'properties/C06.v'
 OP_ADD2 = 100
 OP_MPO = 101
+OP_MPO2 = 102
 
 
 def dmat(O, ops):
@@ -182,6 +183,90 @@ def model_product_correspondence(ctx, st, quick):
     return bad
 
 
+def export_mpo_pair(O1, O2, ops):
+    """per site (dw1, dw2, W1[s][t], W2[t][s']) with bonds embedded in the union of the neighbours' legs"""
+    import yastn
+    N = O1.N
+    sp = ops.space()
+    out = []
+    for k in range(N):
+        res = []
+        for X in (O1, O2):
+            T = X[k]
+            lg = {1: sp, 3: sp.conj()}
+            if k > 0:
+                lg[0] = yastn.legs_union(X[k - 1].get_legs(2).conj(), T.get_legs(0))
+            if k < N - 1:
+                lg[2] = yastn.legs_union(T.get_legs(2), X[k + 1].get_legs(0).conj())
+            res.append(T.to_numpy(legs=lg))
+        Wa, Wb = res
+        d = Wa.shape[1]
+        imat = lambda M: [[int(x) for x in row] for row in M]
+        out.append([int(Wa.shape[2]), int(Wb.shape[2]),
+                    [[imat(Wa[:, s, :, t]) for t in range(d)] for s in range(d)],
+                    [[imat(Wb[:, t, :, s2]) for s2 in range(d)] for t in range(d)]])
+    return out
+
+
+def model_mpo_product_correspondence(ctx, st, quick):
+    """O1 @ O2 of the implementation vs the site-wise Kronecker product of the Coq model (opcode 102), entry by entry, exactly"""
+    import yastn, yastn.tn.mps as mps, mgen
+    rng = ctx.rng
+    jobs, src = [], []
+    for k in range(30 if quick else 400):
+        fam, sym = rng.choice(mgen.FAMILIES)
+        ops = mgen.operators(fam, sym)
+        N = rng.randint(1, 3)
+        try:
+            O1 = mgen.int_mps(rng, ops, N, D_total=rng.randint(1, 3), nr_phys=2)
+            O2 = mgen.int_mps(rng, ops, N, D_total=rng.randint(1, 3), nr_phys=2)
+        except Exception:
+            continue
+        if any(X.virtual_leg(e).D != (1,) for X in (O1, O2) for e in ('first', 'last')):
+            continue
+        dloc = sum(ops.space().D)
+        confs = [list(s) for s in itertools.product(range(dloc), repeat=N)]
+        pairs = [[a, b] for a in confs for b in confs]
+        if len(pairs) > 60:
+            pairs = [pairs[i] for i in sorted(rng.sample(range(len(pairs)), 60))]
+        desc = dict(kind='model-mpo-product', family=fam, sym=sym, N=N)
+        try:
+            P = O1 @ O2
+            dP, d1, d2 = mgen.dense_state(P, ops), mgen.dense_state(O1, ops), mgen.dense_state(O2, ops)
+        except yastn.YastnError as e:
+            ctx.violation('O1 @ O2 raised %s (%s %s N=%d)' % (str(e)[:100], fam, sym, N), desc)
+            continue
+        mat = lambda dX: dX.transpose(list(range(0, 2 * N, 2)) + list(range(1, 2 * N, 2))).reshape(dloc ** N, dloc ** N)
+        ref = mat(d1) @ mat(d2)
+        got = mat(dP)
+        if not np.array_equal(ref, got):
+            ctx.violation('O1 @ O2 differs from the product of the dense operators (%s %s N=%d)' % (fam, sym, N), desc)
+            continue
+        idx = lambda c: int(np.ravel_multi_index(c, [dloc] * N)) if N else 0
+        impl = [[int(got[idx(a), idx(b)])] * 2 for a, b in pairs]
+        try:
+            jobs.append((OP_MPO2, [dloc, export_mpo_pair(O1, O2, ops), pairs]))
+        except (ValueError, AssertionError):
+            continue
+        src.append((desc, impl))
+        ctx.case(desc, nontrivial=True)
+        ctx.count('model-mpo-product:%s' % fam)
+    bad = []
+    if st['model_ok'] and jobs:
+        mo = vlib.run_model(jobs, shards=8)
+        for (desc, impl), m in zip(src, mo):
+            if m != impl:
+                k = next(i for i, (u, v) in enumerate(zip(m, impl)) if u != v)
+                bad.append(dict(desc=desc, first=dict(model_product_and_applied=m[k], impl=impl[k])))
+        small = [(op, arg, out) for (op, arg), out in zip(jobs, mo) if len(vlib.to_sx(arg)) < 3000][:6]
+        ok, idx_, ns = vlib.coq_sample('C06q', small)
+        ctx.extra['coq_vm_sample_mpo_product'] = dict(n=ns, mismatches=len(idx_), ok=ok)
+        if not ok and not bad:
+            ctx.broken.append('in-Coq vm_compute sample (MPO product) disagrees with the extracted driver at %r' % idx_[:5])
+    ctx.extra['model_mpo_product_correspondence'] = dict(cases=len(jobs), disagreements=len(bad))
+    return bad
+
+
 def rand_objs(rng, ops, N, sym):
     import mgen
     chs = mgen.admissible_charges(ops, N)
@@ -301,15 +386,16 @@ def run(ctx):
     quick = ctx.tier == 'quick'
     ctx.cov['rule'] = ('integer-valued (also Gaussian-integer) MPS/MPO of every operator family x symmetry, N = 1..5, random bond dimensions and admissible total charges, '
                        'non-unit factors and complex scalars: every algebra operation and measurement vs NumPy on dense vectors/matrices exactly; zipper/compression/'
-                       'mps_from_tensor with tolerance; random expression trees; product states; the Coq models of addition and of MPO @ MPS on exported site matrices. non-trivial = all; '
+                       'mps_from_tensor with tolerance; random expression trees; product states; the Coq models of addition, MPO @ MPS and MPO @ MPO on exported site matrices. non-trivial = all; '
                        'distinct by (family, symmetry, N, seed, operation)')
     bad = model_add_correspondence(ctx, st, quick)
     badp = model_product_correspondence(ctx, st, quick)
+    badp = badp + model_mpo_product_correspondence(ctx, st, quick)
     dense_oracles(ctx, quick)
     if bad and not ctx.violations:
         ctx.violation('MPS addition: model and implementation disagree: %r' % (bad[0],), dict(kind='correspondence', first=bad[:3]))
     if badp and not ctx.violations:
-        ctx.violation('MPO @ MPS: model and implementation disagree: %r' % (badp[0],), dict(kind='correspondence', first=badp[:3]))
+        ctx.violation('MPO @ MPS / MPO @ MPO: model and implementation disagree: %r' % (badp[0],), dict(kind='correspondence', first=badp[:3]))
     if ctx.broken and not ctx.violations:
         ctx.violation('obligation or tie no longer checks: %s' % ctx.broken[0], dict(kind='obligation', broken=ctx.broken), found_input=False)
     return ctx.finish(level='proof', checker_cmd='make -C /verif/coq (coqc 8.16.1) + coqc properties/C06.v (Print Assumptions)',
